@@ -1456,6 +1456,20 @@ func init() {
 		}
 		return Sc{sl.Arr}, tMathInt
 	}
+	// oncedone(o): the sync.Once o has already run its function (ghost flag of the Once model)
+	specBuiltins["oncedone"] = func(e *SpecEnv, n *ast.CallExpr) (SV, types.Type) {
+		loc := e.evalLoc(n.Args[0])
+		if loc == nil {
+			e.fail("oncedone() needs a sync.Once variable or field")
+		}
+		h := e.c.heapGet(e.st, "ghost$once$done", SArr(SInt, SBool))
+		ref := e.c.subRef(loc)
+		if strings.HasPrefix(loc.Prefix, "global$") && loc.Idx2 == nil && structOf(loc.T) != nil {
+			// a package-level struct variable is addressed by its global reference
+			ref = e.c.vc.Const("gref$"+strings.TrimPrefix(loc.Prefix, "global$"), SInt)
+		}
+		return Sc{Select(h, ref, SBool)}, tBool
+	}
 	// bytestext(b): the text held by a []byte value (what string(b) yields)
 	specBuiltins["bytestext"] = func(e *SpecEnv, n *ast.CallExpr) (SV, types.Type) {
 		v, _ := e.eval(n.Args[0])
